@@ -1,0 +1,20 @@
+//go:build verif
+
+package types
+
+// Contracts for daemons/pricefeed/types, read by /verif/bin/govc. Comment-only:
+// compiled only with -tags verif and adds no code.
+
+//@ func (pt *PriceTimestamp).UpdatePrice(price, newUpdateTime) (updated)
+//@ requires [receiver_and_time_present] pt != nil && newUpdateTime != nil
+//@ ensures [updates_iff_strictly_newer] updated <==> deref(newUpdateTime) > old(pt.LastUpdateTime)
+//@ ensures [takes_new_price_and_time] updated ==> pt.LastUpdateTime == deref(newUpdateTime) && pt.Price == price
+//@ ensures [stale_update_changes_nothing] !updated ==> pt.LastUpdateTime == old(pt.LastUpdateTime) && pt.Price == old(pt.Price)
+//@ ensures [update_time_only_moves_forward] pt.LastUpdateTime >= old(pt.LastUpdateTime)
+
+//@ func (pt *PriceTimestamp).GetValidPrice(cutoffTime) (price, ok)
+//@ requires [receiver_present] pt != nil
+//@ ensures [fresh_iff_not_before_cutoff] ok <==> pt.LastUpdateTime >= cutoffTime
+//@ ensures [fresh_price_returned] ok ==> price == pt.Price
+//@ ensures [stale_gives_zero] !ok ==> price == 0
+//@ ensures [read_only] pt.LastUpdateTime == old(pt.LastUpdateTime) && pt.Price == old(pt.Price)
